@@ -1,3 +1,568 @@
-//! C05 harnesses (see /verif/DESIGN.md section 5).
+//! C05 - lax parsing extends strict parsing and flags truncation honestly.
+//!
+//! Per lax entry point, on the same symbolic bytes: the lax result against the reference decoder run
+//! in lax mode (prefix, payload range, `incomplete`, length source, where it stopped) and against the
+//! strict sibling (strict Ok => identical result, no stop error, nothing incomplete).
 
-crate::harnesses! {}
+use crate::c03::{check_len_error, layer_admissible, len_source_of};
+use crate::refm::{self, Lim, RFault, RNet, RWalk, Start, Want, RL};
+use crate::sym::{any, any_le, assume};
+use crate::tight::off;
+use crate::witness;
+use etherparse::err::{self, Layer};
+use etherparse::*;
+
+fn same(a: &[u8], b: &[u8]) -> bool {
+    a.as_ptr() == b.as_ptr() && a.len() == b.len()
+}
+
+// ------------------------------------------------------------------ MACsec
+
+pub fn lax_macsec() {
+    let data: [u8; 28] = any();
+    let s = &data[..any_le(28)];
+    let r = refm::macsec(s, Lim::Slice, true);
+    let strict = MacsecSlice::from_slice(s);
+    match LaxMacsecSlice::from_slice(s) {
+        Ok(m) => {
+            assert!(r.is_ok(), "C05: lax accepts although the header is undecodable");
+            let r = r.unwrap();
+            assert!(off(s, m.header.slice()) == 0 && m.header.slice().len() == r.hlen);
+            let (inc, payload, src) = match &m.payload {
+                LaxMacsecPayloadSlice::Unmodified(e) => {
+                    assert!(Some(e.ether_type.0) == r.ether_type);
+                    (e.incomplete, e.payload, e.len_source)
+                }
+                LaxMacsecPayloadSlice::Modified { incomplete, payload } => {
+                    assert!(r.ether_type.is_none());
+                    (*incomplete, *payload, if r.lim == Lim::MacsecSl { LenSource::MacsecShortLength } else { LenSource::Slice })
+                }
+            };
+            witness!(inc, "incomplete");
+            witness!(!inc && src == LenSource::MacsecShortLength, "cut_by_short_len");
+            assert!(inc == r.incomplete, "C05: incomplete flag does not say whether the short length over-claims");
+            assert!(off(s, payload) == r.hlen && payload.len() == r.payload_len, "C05: wrong payload range");
+            assert!(src == len_source_of(r.lim), "C05: wrong length source");
+            if inc {
+                assert!(payload.len() == s.len() - r.hlen && src == LenSource::Slice);
+            }
+            // strict sibling
+            match &strict {
+                Ok(st) => {
+                    assert!(!inc, "C05: strict accepts but lax marks the payload incomplete");
+                    assert!(same(st.header.slice(), m.header.slice()));
+                    match (&st.payload, &m.payload) {
+                        (MacsecPayloadSlice::Unmodified(a), LaxMacsecPayloadSlice::Unmodified(b)) => {
+                            assert!(same(a.payload, b.payload) && a.ether_type == b.ether_type && a.len_source == b.len_source);
+                        }
+                        (MacsecPayloadSlice::Modified(a), LaxMacsecPayloadSlice::Modified { payload, .. }) => {
+                            assert!(same(a, payload));
+                        }
+                        _ => assert!(false, "C05: strict and lax disagree on the payload kind"),
+                    }
+                }
+                Err(_) => {
+                    // strict fails behind the header: exactly the over-claiming short length
+                    assert!(inc, "C05: strict rejects, lax reports nothing");
+                }
+            }
+        }
+        Err(_) => {
+            assert!(r.is_err(), "C05: lax rejects although the header is decodable");
+            assert!(strict.is_err());
+        }
+    }
+}
+
+// ------------------------------------------------------------------ UDP
+
+pub fn lax_udp() {
+    let data: [u8; 16] = any();
+    let s = &data[..any_le(16)];
+    let r = refm::udp(s, Lim::Slice, true);
+    let strict = UdpSlice::from_slice(s);
+    match UdpSlice::from_slice_lax(s) {
+        Ok(u) => {
+            assert!(r.is_ok());
+            let r = r.unwrap();
+            witness!(r.len < s.len(), "cut_by_length");
+            witness!(strict.is_err(), "strict_rejects");
+            assert!(off(s, u.slice()) == 0 && u.slice().len() == r.len, "C05: wrong UDP range");
+            assert!(off(s, u.payload()) == 8 && u.payload().len() == r.len - 8);
+            if let Ok(st) = &strict {
+                assert!(same(st.slice(), u.slice()), "C05: lax differs from an accepted strict result");
+            } else {
+                // over- or under-claiming length field: everything up to the slice end is handed out
+                assert!(u.slice().len() == s.len());
+                assert!(u.payload_len_source() == LenSource::Slice || usize::from(u.length()) == s.len());
+            }
+        }
+        Err(_) => {
+            assert!(r.is_err() && strict.is_err());
+            assert!(s.len() < 8);
+        }
+    }
+}
+
+// ------------------------------------------------------------------ IPv4
+
+fn stop_matches_ext_fault(l: &err::LenError, f: &RFault) {
+    check_len_error(l, f, 0);
+}
+
+pub fn lax_ipv4() {
+    let data: [u8; 44] = any();
+    let s = &data[..any_le(44)];
+    let r = refm::ipv4(s, Lim::Slice, true);
+    let strict = Ipv4Slice::from_slice(s);
+    match LaxIpv4Slice::from_slice(s) {
+        Ok((ip, stop)) => {
+            assert!(r.is_ok(), "C05: lax accepts although the IPv4 header is undecodable");
+            let r = r.unwrap();
+            witness!(r.incomplete, "incomplete");
+            witness!(stop.is_some(), "stop_in_auth");
+            witness!(r.lim == Lim::Slice && !r.incomplete, "total_len_under_claims");
+            assert!(off(s, ip.header().slice()) == 0 && ip.header().slice().len() == r.hlen);
+            let p = ip.payload();
+            assert!(off(s, p.payload) == r.payload_off && p.payload.len() == r.payload_len, "C05: wrong payload range");
+            assert!(p.ip_number.0 == r.proto && p.fragmented == r.fragmented);
+            assert!(p.incomplete == r.incomplete, "C05: incomplete flag is not 'total length promised more than the slice holds'");
+            assert!(p.len_source == len_source_of(r.lim), "C05: wrong length source");
+            if p.incomplete {
+                assert!(p.len_source == LenSource::Slice && r.payload_off + p.payload.len() == s.len());
+            }
+            assert!(ip.extensions().auth.is_some() == (r.n_exts == 1));
+            assert!(stop.is_some() == r.ext_fault.is_some(), "C05: stop error does not match the reference fault");
+            if let (Some(e), Some(f)) = (&stop, &r.ext_fault) {
+                match e {
+                    err::ip_auth::HeaderSliceError::Len(l) => stop_matches_ext_fault(l, f),
+                    err::ip_auth::HeaderSliceError::Content(err::ip_auth::HeaderError::ZeroPayloadLen) => {
+                        assert!(f.want == Want::AuthZeroLen);
+                    }
+                }
+            }
+            match &strict {
+                Ok(st) => {
+                    assert!(stop.is_none() && !p.incomplete, "C05: strict accepts but lax flags a problem");
+                    assert!(same(st.payload().payload, p.payload) && st.payload().ip_number == p.ip_number);
+                    assert!(st.payload().len_source == p.len_source && st.payload().fragmented == p.fragmented);
+                    assert!(same(st.header().slice(), ip.header().slice()));
+                    assert!(st.extensions().auth.map(|a| a.slice().len()) == ip.extensions().auth.map(|a| a.slice().len()));
+                }
+                Err(_) => {
+                    // strict fails behind the base header: the lax result must say why it is not clean
+                    assert!(stop.is_some() || p.incomplete || r.lim == Lim::Slice);
+                }
+            }
+            core::mem::forget(stop);
+        }
+        Err(_) => {
+            assert!(r.is_err(), "C05: lax rejects although the first header is decodable");
+            assert!(r.unwrap_err().layer == RL::V4 && strict.is_err());
+        }
+    }
+}
+
+// ------------------------------------------------------------------ IPv6
+
+fn check_ext_stop(stop: &Option<(err::ipv6_exts::HeaderSliceError, Layer)>, fault: &Option<RFault>) {
+    assert!(stop.is_some() == fault.is_some(), "C05: stop error does not match the reference fault");
+    if let (Some((e, layer)), Some(f)) = (stop, fault) {
+        assert!(layer_admissible(f.layer, *layer), "C05: stop error is recorded on the wrong layer");
+        match e {
+            err::ipv6_exts::HeaderSliceError::Len(l) => check_len_error(l, f, 0),
+            err::ipv6_exts::HeaderSliceError::Content(err::ipv6_exts::HeaderError::HopByHopNotAtStart) => {
+                assert!(f.want == Want::HopByHopNotFirst);
+            }
+            err::ipv6_exts::HeaderSliceError::Content(err::ipv6_exts::HeaderError::IpAuth(_)) => {
+                assert!(f.want == Want::AuthZeroLen);
+            }
+        }
+    }
+}
+
+pub fn lax_ipv6<const N: usize>() {
+    let data: [u8; N] = any();
+    let s = &data[..any_le(N)];
+    let r = refm::ipv6(s, Lim::Slice, true);
+    let strict = Ipv6Slice::from_slice(s);
+    match LaxIpv6Slice::from_slice(s) {
+        Ok((ip, stop)) => {
+            assert!(r.is_ok(), "C05: lax accepts although the IPv6 header is undecodable");
+            let r = r.unwrap();
+            witness!(r.incomplete, "incomplete");
+            witness!(stop.is_some() && r.n_exts >= 1, "stop_behind_an_extension");
+            let p = ip.payload();
+            assert!(ip.extensions().slice().len() == r.exts_len);
+            assert!(off(s, p.payload) == r.payload_off && p.payload.len() == r.payload_len, "C05: wrong payload range");
+            assert!(p.ip_number.0 == r.proto && p.fragmented == r.fragmented);
+            assert!(p.incomplete == r.incomplete, "C05: incomplete flag is not 'payload length promised more than the slice holds'");
+            assert!(p.len_source == len_source_of(r.lim), "C05: wrong length source");
+            if p.incomplete {
+                assert!(p.len_source == LenSource::Slice && r.payload_off + p.payload.len() == s.len());
+            }
+            check_ext_stop(&stop, &r.ext_fault);
+            match &strict {
+                Ok(st) => {
+                    assert!(stop.is_none() && !p.incomplete, "C05: strict accepts but lax flags a problem");
+                    assert!(same(st.payload().payload, p.payload) && st.payload().ip_number == p.ip_number);
+                    assert!(st.payload().len_source == p.len_source && st.payload().fragmented == p.fragmented);
+                    assert!(same(st.extensions().slice(), ip.extensions().slice()));
+                }
+                Err(_) => {
+                    assert!(stop.is_some() || p.incomplete);
+                }
+            }
+            core::mem::forget(stop);
+        }
+        Err(_) => {
+            assert!(r.is_err(), "C05: lax rejects although the first header is decodable");
+            assert!(r.unwrap_err().layer == RL::V6 && strict.is_err());
+        }
+    }
+}
+
+/// the lax constructor of `Ipv6Slice` itself (keeps the strict return type)
+pub fn ipv6_slice_lax<const N: usize>() {
+    let data: [u8; N] = any();
+    let s = &data[..any_le(N)];
+    let strict = Ipv6Slice::from_slice(s);
+    let lax = Ipv6Slice::from_slice_lax(s);
+    if let Ok(st) = &strict {
+        let l = lax.as_ref().ok().expect("C05: strict accepts, lax rejects");
+        assert!(same(st.payload().payload, l.payload().payload) && st.payload().len_source == l.payload().len_source);
+        assert!(same(st.extensions().slice(), l.extensions().slice()));
+    }
+    if let Ok(l) = &lax {
+        // payload length over-claims: data up to the slice end, slice as length source
+        let plen = u16::from_be_bytes([s[4], s[5]]) as usize;
+        if 40 + plen > s.len() {
+            witness!(true, "over_claim_falls_back_to_slice");
+            assert!(l.payload().len_source == LenSource::Slice);
+            let p = l.payload().payload;
+            assert!(off(s, p) + p.len() == s.len());
+        }
+    }
+}
+
+// ------------------------------------------------------------------ extension chains
+
+pub fn lax_ipv6_exts<const N: usize>() {
+    let data: [u8; N] = any();
+    let s = &data[..any_le(N)];
+    let first: u8 = any();
+    let (len, n, proto, fragmented, fault) = refm::ipv6_exts(s, first, Lim::Slice);
+    let (x, next, rest, stop) = Ipv6ExtensionsSlice::from_slice_lax(IpNumber(first), s);
+    witness!(stop.is_some() && n >= 1, "stop_behind_a_header");
+    assert!(x.slice().len() == len && off(s, rest) == len && rest.len() == s.len() - len, "C05: wrong prefix");
+    assert!(next.0 == proto && x.is_fragmenting_payload() == fragmented);
+    check_ext_stop(&stop, &fault);
+    // strict sibling
+    match Ipv6ExtensionsSlice::from_slice(IpNumber(first), s) {
+        Ok((sx, sn, srest)) => {
+            assert!(stop.is_none(), "C05: strict accepts but lax reports a stop error");
+            assert!(same(sx.slice(), x.slice()) && sn == next && same(srest, rest));
+        }
+        Err(_) => assert!(stop.is_some(), "C05: strict rejects, lax reports nothing"),
+    }
+    core::mem::forget(stop);
+}
+
+pub fn lax_ipv4_exts() {
+    let data: [u8; 28] = any();
+    let s = &data[..any_le(28)];
+    let first: u8 = any();
+    let (x, next, rest, stop) = Ipv4ExtensionsSlice::from_slice_lax(IpNumber(first), s);
+    if first == refm::P_AUTH {
+        match refm::auth(s, Lim::Slice) {
+            Ok((nx, len)) => {
+                witness!(true, "auth_ok");
+                assert!(stop.is_none() && x.auth.is_some() && next.0 == nx && off(s, rest) == len);
+            }
+            Err(f) => {
+                witness!(true, "auth_fault");
+                assert!(x.auth.is_none() && next.0 == refm::P_AUTH && same(rest, s));
+                match stop.as_ref().expect("C05: fault not recorded") {
+                    err::ip_auth::HeaderSliceError::Len(l) => check_len_error(l, &f, 0),
+                    err::ip_auth::HeaderSliceError::Content(_) => assert!(f.want == Want::AuthZeroLen),
+                }
+            }
+        }
+    } else {
+        assert!(stop.is_none() && x.auth.is_none() && next.0 == first && same(rest, s));
+    }
+    match Ipv4ExtensionsSlice::from_slice(IpNumber(first), s) {
+        Ok((sx, sn, srest)) => {
+            assert!(stop.is_none() && sn == next && same(srest, rest) && sx.auth.is_some() == x.auth.is_some());
+        }
+        Err(_) => assert!(stop.is_some()),
+    }
+    core::mem::forget(stop);
+}
+
+// ------------------------------------------------------------------ version dispatch
+
+pub fn lax_ip_dispatch() {
+    let data: [u8; 44] = any();
+    let s = &data[..any_le(44)];
+    if s.len() > 6 && s[0] >> 4 == 6 {
+        assume(!matches!(s[6], refm::P_HOPOPT | refm::P_ROUTE | refm::P_FRAG | refm::P_AUTH | refm::P_DSTOPT));
+    }
+    let r = refm::ip(s, Lim::Slice, true);
+    match LaxIpSlice::from_slice(s) {
+        Ok((ip, stop)) => {
+            assert!(r.is_ok(), "C05: lax accepts although the IP header is undecodable");
+            let r = r.unwrap();
+            witness!(r.v6 && r.incomplete, "v6_incomplete");
+            witness!(!r.v6 && r.incomplete, "v4_incomplete");
+            assert!(ip.ipv6().is_some() == r.v6);
+            let p = ip.payload();
+            assert!(off(s, p.payload) == r.payload_off && p.payload.len() == r.payload_len, "C05: wrong payload range");
+            assert!(p.ip_number.0 == r.proto && p.fragmented == r.fragmented && p.incomplete == r.incomplete);
+            assert!(p.len_source == len_source_of(r.lim));
+            assert!(stop.is_some() == r.ext_fault.is_some());
+            core::mem::forget(stop);
+        }
+        Err(_) => {
+            assert!(r.is_err(), "C05: lax rejects although the first header is decodable");
+        }
+    }
+}
+
+// ------------------------------------------------------------------ the reference itself: lax extends strict
+
+/// A property of the reference decoder alone (cheap: no etherparse code): wherever the strict walk
+/// succeeds the lax walk is identical, and wherever it fails the lax walk keeps every layer in front
+/// of the fault. Together with "strict == walk(strict)" (C03) and "lax == walk(lax)" (c05_glue_*) this
+/// carries the strict/lax relation to whole packets.
+pub fn ref_lax_extends_strict<const N: usize>() {
+    let data: [u8; N] = any();
+    let s = &data[..any_le(N)];
+    let which: u8 = any();
+    let start = match which & 3 {
+        0 => Start::Ethernet,
+        1 => Start::Sll,
+        2 => Start::EtherType(any()),
+        _ => Start::Ip,
+    };
+    let a = refm::walk(start, s, false);
+    let b = refm::walk(start, s, true);
+    if a.fault.is_none() {
+        witness!(a.tr.is_some(), "strict_ok_with_transport");
+        assert!(a == b, "reference: lax differs from a successful strict walk");
+    } else {
+        // same link / link extension prefix
+        assert!(a.link == b.link);
+        assert!(b.n_exts >= a.n_exts);
+        if a.n_exts >= 1 {
+            assert!(a.exts[0] == b.exts[0]);
+        }
+        if a.n_exts >= 2 {
+            assert!(a.exts[1] == b.exts[1]);
+        }
+        if a.n_exts == 3 {
+            assert!(a.exts[2] == b.exts[2]);
+        }
+        if let Some(f) = b.fault {
+            // lax stops at the same fault or at a later one (after a length over-claim it carries on)
+            assert!(f.off >= a.fault.unwrap().off);
+        }
+    }
+}
+
+// ------------------------------------------------------------------ whole packet (lax cursor)
+
+pub mod glue {
+    use super::*;
+
+    fn check_stop(stop: &Option<(err::packet::SliceError, Layer)>, w: &RWalk) {
+        assert!(stop.is_some() == w.fault.is_some(), "C05: stop error does not match the reference fault");
+        if let (Some((e, layer)), Some(f)) = (stop, &w.fault) {
+            witness!(true, "stopped");
+            assert!(layer_admissible(f.layer, *layer), "C05: stop error is recorded on the wrong layer");
+            let e2 = match e {
+                // known C07 findings (length source naming) are not the subject here
+                err::packet::SliceError::Len(l) if l.len_source == LenSource::ArpAddrLengths => {
+                    let mut l2 = l.clone();
+                    l2.len_source = LenSource::Slice;
+                    err::packet::SliceError::Len(l2)
+                }
+                other => other.clone(),
+            };
+            crate::c03::glue::check_packet_error(&e2, f);
+        }
+    }
+
+    pub fn run<const N: usize>(start: Start, shape: fn(&mut [u8; N])) {
+        let mut data: [u8; N] = any();
+        shape(&mut data);
+        let s = &data[..any_le(N)];
+        let w = refm::walk(start, s, true);
+        let r = match start {
+            Start::Ethernet => LaxSlicedPacket::from_ethernet(s).ok(),
+            Start::EtherType(et) => Some(LaxSlicedPacket::from_ether_type(EtherType(et), s)),
+            Start::Ip => LaxSlicedPacket::from_ip(s).ok(),
+            Start::Sll => unreachable!(),
+        };
+        // lax parsing only fails when the very first header is undecodable
+        match (start, r.is_some()) {
+            (Start::Ethernet, ok) => assert!(ok == w.link.is_some(), "C05: Err <=> the Ethernet header is cut"),
+            (Start::Ip, ok) => assert!(ok == w.net.is_some(), "C05: Err <=> the IP header is undecodable"),
+            _ => {}
+        }
+        match r {
+            None => {
+                witness!(true, "first_header_undecodable");
+                assert!(w.fault.is_some());
+            }
+            Some(p) => {
+                if w.ip_version_mismatch {
+                    // KNOWN FINDING (pinned by the repository's tests, see known_findings.json): the lax
+                    // decoders choose the IP version from the version nibble, so an IPv6 header behind ether
+                    // type 0x0800 (or IPv4 behind 0x86dd) is decoded without a stop error although strict
+                    // parsing rejects it. The result is still compared with the nibble-dispatched reference.
+                    witness!(true, "KF:c05-lax-ip-version-from-nibble");
+                }
+                assert!(p.link_exts.len() == w.n_exts, "C05: wrong number of link extensions");
+                ext(s, &p, &w, 0);
+                ext(s, &p, &w, 1);
+                ext(s, &p, &w, 2);
+                match (&p.net, &w.net) {
+                    (None, None) => {}
+                    (Some(LaxNetSlice::Arp(a)), Some(RNet::Arp { off: o, len })) => {
+                        assert!(off(s, a.slice()) == *o && a.slice().len() == *len);
+                    }
+                    (Some(LaxNetSlice::Ipv4(v4)), Some(RNet::Ip { off: o, ip })) => {
+                        assert!(!ip.v6 && off(s, v4.header().slice()) == *o);
+                        payload(s, v4.payload(), *o, ip);
+                    }
+                    (Some(LaxNetSlice::Ipv6(v6)), Some(RNet::Ip { off: o, ip })) => {
+                        assert!(ip.v6 && off(s, v6.header().slice()) == *o);
+                        assert!(v6.extensions().slice().len() == ip.exts_len);
+                        payload(s, v6.payload(), *o, ip);
+                    }
+                    _ => assert!(false, "C05: wrong network layer"),
+                }
+                match (&p.transport, &w.tr) {
+                    (None, None) => {}
+                    (Some(TransportSlice::Udp(u)), Some((o, t))) => {
+                        assert!(t.layer == RL::Udp && off(s, u.slice()) == *o && u.slice().len() == t.len, "C05: UDP range");
+                    }
+                    (Some(TransportSlice::Tcp(x)), Some((o, t))) => {
+                        assert!(t.layer == RL::Tcp && off(s, x.slice()) == *o && x.slice().len() == t.len && x.header_len() == t.hlen);
+                    }
+                    (Some(TransportSlice::Icmpv4(x)), Some((o, t))) => {
+                        assert!(t.layer == RL::Icmp4 && off(s, x.slice()) == *o && x.slice().len() == t.len);
+                    }
+                    (Some(TransportSlice::Icmpv6(x)), Some((o, t))) => {
+                        assert!(t.layer == RL::Icmp6 && off(s, x.slice()) == *o && x.slice().len() == t.len);
+                    }
+                    _ => assert!(false, "C05: wrong transport layer"),
+                }
+                check_stop(&p.stop_err, &w);
+                core::mem::forget(p);
+            }
+        }
+    }
+
+    fn ext(s: &[u8], p: &LaxSlicedPacket, w: &RWalk, i: usize) {
+        if i < w.n_exts {
+            let x = &w.exts[i];
+            match &p.link_exts[i] {
+                LaxLinkExtSlice::Vlan(v) => assert!(x.kind == RL::Vlan && off(s, v.header_slice()) == x.off),
+                LaxLinkExtSlice::Macsec(m) => {
+                    assert!(x.kind == RL::Macsec && off(s, m.header.slice()) == x.off && m.header.slice().len() == x.hlen);
+                }
+            }
+        }
+    }
+
+    fn payload(s: &[u8], p: &LaxIpPayloadSlice, o: usize, ip: &refm::RIp) {
+        witness!(p.incomplete, "incomplete");
+        assert!(off(s, p.payload) == o + ip.payload_off && p.payload.len() == ip.payload_len, "C05: wrong IP payload range");
+        assert!(p.ip_number.0 == ip.proto && p.fragmented == ip.fragmented);
+        assert!(p.incomplete == ip.incomplete, "C05: incomplete flag");
+        if p.incomplete {
+            assert!(p.len_source == LenSource::Slice);
+        }
+    }
+
+    /// MACsec(unmodified, no SCI, symbolic short length) -> VLAN -> IPv4(no options) -> UDP
+    pub fn shape_macsec_vlan_ipv4_udp() {
+        run::<42>(Start::EtherType(refm::ET_MACSEC), |d| {
+            d[0] = 0x01;
+            d[6] = 0x81;
+            d[7] = 0x00;
+            d[10] = 0x08;
+            d[11] = 0x00;
+            d[12] = 0x45;
+            d[12 + 9] = 17;
+        });
+    }
+    /// IPv6 -> routing header (symbolic length) -> UDP
+    pub fn shape_ipv6_route_udp() {
+        run::<60>(Start::Ip, |d| {
+            d[0] = 0x60 | (d[0] & 0xf);
+            d[6] = 43;
+            d[40] = 17;
+        });
+    }
+    /// Ethernet -> IPv4 (symbolic IHL) -> TCP
+    pub fn shape_eth_ipv4_tcp() {
+        run::<62>(Start::Ethernet, |d| {
+            d[12] = 0x08;
+            d[13] = 0x00;
+            d[14] = 0x40 | (d[14] & 0xf);
+            d[14 + 9] = 6;
+        });
+    }
+    /// IPv4 (no options) -> ICMPv4
+    pub fn shape_ipv4_icmp() {
+        run::<44>(Start::Ip, |d| {
+            d[0] = 0x45;
+            d[9] = 1;
+        });
+    }
+    /// Ethernet -> ARP
+    pub fn shape_eth_arp() {
+        run::<46>(Start::Ethernet, |d| {
+            d[12] = 0x08;
+            d[13] = 0x06;
+        });
+    }
+    pub fn any_ether_type<const N: usize>() {
+        let et: u16 = any();
+        run::<N>(Start::EtherType(et), |_| {});
+    }
+    pub fn any_ip<const N: usize>() {
+        run::<N>(Start::Ip, |_| {});
+    }
+    pub fn any_ethernet<const N: usize>() {
+        run::<N>(Start::Ethernet, |_| {});
+    }
+
+    crate::harnesses! {
+        c05_glue_macsec_vlan_ipv4_udp = shape_macsec_vlan_ipv4_udp; unwind 4,
+        c05_glue_ipv6_route_udp = shape_ipv6_route_udp; unwind 3,
+        c05_glue_eth_ipv4_tcp = shape_eth_ipv4_tcp; unwind 2,
+        c05_glue_ipv4_icmp = shape_ipv4_icmp; unwind 2,
+        c05_glue_eth_arp = shape_eth_arp; unwind 2,
+        c05_glue_any_ether_type_44 = any_ether_type::<44>; unwind 5,
+        c05_glue_any_ip_48 = any_ip::<48>; unwind 5,
+        c05_glue_any_ethernet_48 = any_ethernet::<48>; unwind 5,
+    }
+}
+
+crate::harnesses! {
+    c05_lax_macsec = lax_macsec; unwind 4,
+    c05_lax_udp = lax_udp; unwind 4,
+    c05_lax_ipv4 = lax_ipv4; unwind 4,
+    c05_lax_ipv6_56 = lax_ipv6::<56>; unwind 4,
+    c05_lax_ipv6_64 = lax_ipv6::<64>; unwind 5,
+    c05_ipv6_slice_lax_56 = ipv6_slice_lax::<56>; unwind 4,
+    c05_lax_ipv6_exts_16 = lax_ipv6_exts::<16>; unwind 4,
+    c05_lax_ipv6_exts_24 = lax_ipv6_exts::<24>; unwind 5,
+    c05_lax_ipv4_exts = lax_ipv4_exts; unwind 4,
+    c05_lax_ip_dispatch = lax_ip_dispatch; unwind 4,
+    c05_ref_lax_extends_strict_48 = ref_lax_extends_strict::<48>; unwind 6,
+}
